@@ -1539,7 +1539,7 @@ func init() {
 		mixGen(genC12, 80, "C12"), "C12.")
 	seqProp("C25", "one case = a C01-style WRITE/SETATTR(size)/READ history with MaxFileSize in {1,100,1000,4096,5000,10000} set at construction (60%) or by UpdateExportOptions in mid-history (40%), offsets and sizes biased to the limit +-2; oracle: a WRITE or SETATTR(size) that would grow a file beyond the limit gets NFS3ERR_FBIG and leaves the file unchanged (backend == byte-array model after every operation), requests within the limit succeed as without it; non-trivial = at least one operation; distinct by event digest",
 		genC25, "C25.")
-	seqProp("C26", "one case = a directory of 0-40 entries (files, directories, symlinks) with name lengths 1..255 listed by 2-8 READDIR/READDIRPLUS cookie-following sequences with count/maxcount from 1 upward (dense near the size of one entry), dircount <= maxcount, directory cache on/off with the clock advancing between pages, entries created between listings; oracle: concatenation over pages == model children exactly once, fileids equal to those of other replies, encoded READDIR3resok/READDIRPLUS3resok size <= the client's limit, NFS3ERR_TOOSMALL iff not even the next entry fits, a page that can hold an entry holds at least one; non-trivial = at least one listing; distinct by event digest",
+	seqProp("C26", "one case = a directory of 0-40 entries (files, directories, symlinks) with name lengths 1..255 listed by 2-8 READDIR/READDIRPLUS cookie-following sequences with count/maxcount from 1 upward (dense near the size of one entry), dircount <= maxcount, directory cache on/off with the clock advancing between pages, entries created between listings; oracle: concatenation over pages == model children exactly once, fileids equal to those of other replies, encoded READDIR3resok/READDIRPLUS3resok size <= the client's limit, NFS3ERR_TOOSMALL iff not even the next entry fits, a page that can hold an entry holds at least one; 15% of the cases run on a backend that hands out directory entries in batches of 1-5 whenever it is asked for 'at most n' (no effect on Readdir(-1)); non-trivial = at least one listing; distinct by event digest",
 		genC26, "C26.")
 	seqProp("C23", "one case = FSINFO followed by READ and WRITE with counts drawn from {1, preferred, max-1, max} of the advertised limits, for a per-run configured TransferSize (1..65536 and default; in 40% of the runs 1, 2, 3, 5, 1001, 1023, 4097, 65535 or values around and above the 1 MiB record limit) optionally changed at runtime between FSINFO and the I/O, or before the FSINFO (0, -1, 1, 1001, 4096, 2 MiB through UpdateExportOptions or UpdateTuningOptions), on a full record-marked connection (the 1 MiB record limit is in play); oracle: READ before EOF returns >= 1 correct byte, WRITE is accepted (never NFS3ERR_INVAL, never a dropped connection) and reports its count, which is exactly what the backend then holds (in a quarter of the cases the backend takes fewer bytes than given, without an error), rtpref<=rtmax, wtpref<=wtmax; non-trivial = at least one FSINFO-driven I/O; distinct by event digest",
 		genC23, "C23.")
